@@ -18,9 +18,14 @@ for d in sorted(x for x in os.listdir(src) if x.startswith('MUTANT')):
     marker = os.path.join(md, '.imported')
     if os.path.exists(marker):
         continue
-    used = {x.split('-')[1] for x in os.listdir('/verif/seeded') if x.startswith(prop + '-')}
-    letter = next(l for l in string.ascii_lowercase if l not in used)
-    sid = f'{prop}-{letter}'
+    sid = None
+    for letter in string.ascii_lowercase:          # reserve the id atomically (several imports may run side by side)
+        try:
+            os.mkdir(f'/verif/seeded/{prop}-{letter}')
+            sid = f'{prop}-{letter}'
+            break
+        except FileExistsError:
+            continue
     r = subprocess.run(['python3', '/verif/tools/seed_verify.py', md, sid, prop], stdout=subprocess.PIPE, stderr=subprocess.STDOUT, text=True)
     open(marker, 'w').write(sid)
     print(sid, r.stdout.strip().splitlines()[0] if r.stdout.strip() else r.stdout)
